@@ -10,7 +10,7 @@ import z3
 from . import api, front, m_num, m_str, models as M
 from .sym import (
     FALSE, TRUE, And, Opaque, Or, PathAbort, PyRaise, SBool, SBound, SDt, SFloat, SFunc,
-    SInt, SMatch, SObj, SSet, SStr, SSuper, STd, Unsupported, bool_term, char_term,
+    SInt, SMatch, SObj, SSet, SStr, SSuper, STd, SUnb, Unsupported, bool_term, char_term,
     int_term, is_str, is_symbolic, mk_bool, mk_int, mk_str, str_chars, str_eq_term,
 )
 
@@ -27,6 +27,10 @@ def m_len(it, args, kw):
     (v,) = args
     if isinstance(v, (SStr,)):
         return len(v.chars)
+    if isinstance(v, SUnb):
+        t = z3.Int(it.ex.fresh_name(f"{v.name}_len"))
+        it.ex.add_fact(t >= 0)
+        return SInt(t)
     if isinstance(v, (list, tuple, dict, str, set, frozenset, bytes, bytearray, range)):
         return len(v)
     if isinstance(v, SObj):
@@ -1131,12 +1135,20 @@ def i_note(it, args, kw):
     return None
 
 
+def i_sym_text(it, args, kw):
+    """Any string at all (unbounded length, any code points)."""
+    _register_input(it, args[0], "const", "<any string>")
+    return SUnb(args[0])
+
+
 def i_new_object(it, args, kw):
     return SObj(args[0], dict(kw))
 
 
 INTRINSICS = {
-    "new_object": i_new_object,
+    "new_object": i_new_object, "sym_text": i_sym_text,
+    "ghost": (lambda it, args, kw: it.ex.ghosts.setdefault(args[0], [])),
+    "is_concrete": (lambda it, args, kw: not is_symbolic(args[0])),
     "sym_int": i_sym_int, "sym_bool": i_sym_bool, "sym_str": i_sym_str, "sym_float": i_sym_float,
     "sym_choice": i_sym_choice, "assume": i_assume, "check": i_check, "cover": i_cover,
     "outcome": i_outcome, "And": i_And, "Or": i_Or, "Not": i_Not, "Implies": i_Implies,
